@@ -615,6 +615,12 @@ func (c *cluster) applyCfg(a vAct) {
 
 // ---------------------------------------------------------------- info polling
 
+func (c *cluster) fsmHeld(id uint64) bool {
+	c.holdMu.Lock()
+	defer c.holdMu.Unlock()
+	return c.holds[fmt.Sprintf("%d/fsm.apply", id)] != nil || c.holds[fmt.Sprintf("%d/fsm.snapshot", id)] != nil
+}
+
 // pollInfo hands a GetInfo task to every node whose raft goroutine is idle.
 func (c *cluster) pollInfo() {
 	for _, id := range c.order {
@@ -624,6 +630,12 @@ func (c *cluster) pollInfo() {
 		}
 		if n.infoTask != nil {
 			continue // previous one still queued behind a busy handler
+		}
+		if c.fsmHeld(id) {
+			// GetInfo asks the state machine goroutine for its applied index and waits
+			// on the raft goroutine: while Update is parked it would freeze the node,
+			// which is exactly the concurrency the hold is there to open up
+			continue
 		}
 		t := GetInfo()
 		r := raftOf(n)
